@@ -76,7 +76,7 @@ Static(P) ==
 
 -----------------------------------------------------------------------------
 (* The machine.  m = [pc, stack, frames, scratch, steps, status, visited,   *)
-(* usedAbs]; Step(P, S, env, m) is the unique successor of a running state. *)
+(* usedAbs, trail]; Step(P, S, env, m) is the unique successor of a running state. *)
 MaxSteps == 300      \* witnesses are only ever taken from runs within this bound (the AVM allows 700)
 MaxStack == 24
 
@@ -86,9 +86,13 @@ Pop(m, n) == SubSeq(m.stack, 1, Len(m.stack) - n)
 Has(m, n) == Len(m.stack) >= n
 
 (* move to position t, recording the block entered *)
+TrailCap == 6
 Goto(S, m, t, stk) ==
     [m EXCEPT !.pc = t, !.stack = stk,
-              !.visited = IF t <= Len(S.G.blockOf) THEN @ \cup { S.G.blockOf[t] } ELSE @]
+              !.visited = IF t <= Len(S.G.blockOf) THEN @ \cup { S.G.blockOf[t] } ELSE @,
+              \* the first blocks ENTERED, in order (a block is entered when control reaches its first line)
+              !.trail = IF t <= Len(S.G.blockOf) /\ S.G.start[S.G.blockOf[t]] = t /\ Len(@) < TrailCap
+                        THEN Append(@, S.G.blockOf[t]) ELSE @]
 
 Cmp(op, a, b) ==
     CASE op = "==" -> a = b [] op = "!=" -> a # b [] op = "<" -> a < b
@@ -205,5 +209,6 @@ Step(P, S, env, m) ==
 
 InitMachine(S) ==
     [ pc |-> 1, stack |-> << >>, frames |-> << >>, scratch |-> [k \in 0..3 |-> U(0)],
-      steps |-> 0, status |-> "run", visited |-> { S.G.blockOf[1] }, usedAbs |-> FALSE ]
+      steps |-> 0, status |-> "run", visited |-> { S.G.blockOf[1] }, usedAbs |-> FALSE,
+      trail |-> << S.G.blockOf[1] >> ]
 =============================================================================
